@@ -405,18 +405,25 @@ def nat_checkpoint_histories(h):
                 if two:
                     steps += [mark, checkpoint('two', checkpoint_path=d), bump]
                 return Flow(*steps)
+            # "running it again": either a freshly built pipeline per run (a script started twice) or the very same Flow
+            # object run again (a module-level pipeline run in a loop / retried)
+            same_object = h.rng.random() < 0.5
+            if same_object:
+                shared = flow()
+                flow_ = flow
+                flow = lambda: shared          # noqa: E731
             r1 = h.run(lambda: flow().results())
             e1 = len(executed)
             r2 = h.run(lambda: flow().results())
             ok = r1[0] == 'ok' and r2[0] == 'ok' and r1[1][0] == r2[1][0] and r1[1][1].descriptor == r2[1][1].descriptor \
                 and len(executed) == e1 and (n == 0 or r1[1][0] == [[dict(r, i=r['i'] + (2000 if two else 1000)) for r in rows]])
-            h.check(ok, 'dataflows/processors/checkpoint.py::checkpoint', (rows, two), 'second run equals first and executes nothing', (r1[:1], r2[:1], e1, len(executed)))
+            h.check(ok, 'dataflows/processors/checkpoint.py::checkpoint', (rows, two, 'same object' if same_object else 'fresh objects'), 'second run equals first and executes nothing', (r1[:1], r2[:1], e1, len(executed)))
             shutil.rmtree(os.path.join(d, 'two' if two else 'one'))
             if two and h.rng.random() < 0.5:
                 shutil.rmtree(os.path.join(d, 'one'))
             r3 = h.run(lambda: flow().results())
             h.check(r3[0] == 'ok' and r1[0] == 'ok' and r3[1][0] == r1[1][0], 'dataflows/processors/checkpoint.py::checkpoint',
-                    (rows, two, 'after delete'), 'recomputed result equals first run', r3[:1])
+                    (rows, two, 'after delete', 'same object' if same_object else 'fresh objects'), 'recomputed result equals first run', r3[:1])
         finally:
             shutil.rmtree(d, ignore_errors=True)
 
